@@ -29,8 +29,10 @@ using HE = sim::CountingEngine<std::ranlux48_base>;
 using HE = sim::CountingEngine<std::ranlux24>;
 #elif HS_ENG == 9
 using HE = sim::CountingEngine<std::ranlux48>;
-#else
+#elif HS_ENG == 10
 using HE = sim::CountingEngine<std::knuth_b>;
+#else
+using HE = sim::ScriptEngine<14>;
 #endif
 
 #define HS_CAT2(a, b, c) a##b##_##c
